@@ -10,11 +10,21 @@ P = {
  "C03": (True, "proptest: edge-biased inputs + generated programs of safe operations vs independent validity predicate and metamorphic truncation laws; both build profiles",
          "Exploration: ~1.3M generated constructor inputs/program steps per quick run (both overflow-checking and release builds) judged by a bit-level predicate written from the architecture definition, not from the crate. Shows the property on everything generated; cannot show absence.",
          "Trusts proptest's generators/shrinker and the harness oracle (valid_v/valid_p, 10 lines). Inputs: all u64 (edge-biased), programs up to 24 steps over 46 operation kinds.", "3/C03"),
- "C04": (False, "proptest + exhaustive u16 enumeration vs independent bit-field codec (both directions)", "", "", "3/C04"),
- "C05": (False, "proptest vs u128 position model of the contiguous canonical space; mutual-inverse laws; range iteration", "", "", "3/C05"),
- "C06": (False, "proptest vs u128 arithmetic oracle with panic-iff table", "", "", "3/C06"),
- "C07": (False, "proptest vs i128 exact-or-panic oracle in overflow-checking and release builds; range iteration vs count model", "", "", "3/C07"),
- "C08": (False, "proptest setter programs vs raw-bytes model (transmute), table access-path differential", "", "", "3/C08"),
+ "C04": (True, "proptest + exhaustive u16 enumeration vs independent bit-field codec (both directions)",
+         'Exploration plus exhaustive sub-spaces: ~300k generated canonical addresses / index tuples per quick run compared with an independent shift-and-mask codec in both directions; all 65536 u16 inputs of the index/offset constructors and the four levels are enumerated completely every run.',
+         'Trusts the 5-line bit-field oracle and proptest. Index tuples are edge-biased over 0..512^4, not enumerated.', "3/C04"),
+ "C05": (True, "proptest vs u128 position model of the contiguous canonical space; mutual-inverse laws; range iteration",
+         'Exploration: ~480k generated (start,count,end) triples for addresses, pages of three sizes and table indices per quick run and profile, judged by a u128 position model of the contiguous canonical space, the three mutual-inverse laws and by iterating real a..b / a..=b ranges across the gap.',
+         'Trusts the position model (pos = a & (2^48-1)) and proptest. usize = u64 on this target.', "3/C05"),
+ "C06": (True, "proptest vs u128 arithmetic oracle with panic-iff table",
+         'Exploration: 600k generated (address, alignment) pairs per quick run and profile over all 64 power-of-two alignments plus non-powers, judged by u128 arithmetic with an exact panic-iff table; containment for the three sizes.',
+         'Trusts the u128 oracle. VirtAddr value claims are made for alignments <= 2^47 as the property states.', "3/C06"),
+ "C07": (True, "proptest vs i128 exact-or-panic oracle in overflow-checking and release builds; range iteration vs count model",
+         'Exploration in BOTH build profiles (overflow checks on and off): ~200k operator cases x 9 operators and 6000 ranges (up to 4096 items, biased to the first/last items of each half and to the last physical frame) per quick run and profile, judged by an i128 exact-or-panic oracle and a list model of the range.',
+         'Trusts the i128 oracle; a panic is never a violation for operators (the statement is exact-or-panic). Range bounds are generated inside one half / below 2^52 as the quantifier states.', "3/C07"),
+ "C08": (True, "proptest setter programs vs raw-bytes model (transmute), table access-path differential",
+         'Exploration plus an exhaustive 512-slot sweep: 60k setter programs and 15k table programs per quick run judged against a raw-u64 / raw-4096-byte model obtained by transmute, through all write paths x read paths.',
+         'Trusts transmute of the repr(transparent)/repr(C) types as the observation of the hardware layout.', "3/C08"),
  "C09": (False, "stateful PBT over junk-filled simulated memory: byte diff vs predicted writes, access logs, allocation accounting", "", "", "3/C09"),
  "C10": (False, "stateful PBT: MUST/MAY freed-set model, inspection at dealloc time, idempotence", "", "", "3/C10"),
  "C11": (False, "PBT with trapped privileged instructions (user-mode trap-and-emulate): operand decode vs manuals, interval cover", "", "", "3/C11"),
